@@ -298,4 +298,4 @@ def run(report, tier):
     report.space(len(states), transitions, bound,
                  "BFS over pattern words (alphabet %s) x contexts %s x fn name {f, r#type}; words binding a name twice are not Rust "
                  "and are pruned; non-trivial = at least one parameter" % (SYMS, CONTEXTS))
-    evaluate(states, report, tier)
+    common.evaluate_chunked(evaluate, states, report, tier)
